@@ -6,7 +6,7 @@ bs4 / soupsieve objects for replay and for the bounded tier.
 says whether relations may cross an iframe boundary (both are switched inside the pre-compiled HTML-only lists).
 """
 from __future__ import annotations
-from pyvc.dsl import abstract
+from pyvc.dsl import abstract, named
 from pyvc.types import INT, BOOL, STR, TOpt, TSeq
 from pyvc.tree import (SEQ_ATTR as SeqAttr, ATTR_PAIR as AttrPair, PAT as Pat, ATTRVAL as AttrVal, OPT_ATTRVAL as OptAttrVal, SEQ_RAW as SeqRaw, NODE as Node, SEQ_NODE as SeqNode, CSSMATCH as M, NSMAP as NsMap, SELLIST as SelList, SEL as Sel,
                        SELTAG as SelTag, SELATTR as SelAttr, SELNTH as SelNth, SELCONTAINS as SelContains, SELLANG as SelLang,
@@ -25,6 +25,7 @@ SeqStr = TSeq(STR)
 SeqSel = TSeq(Sel)
 from pyvc.types import TTup as _TTup   # noqa: E402
 FormCache = TSeq(_TTup(Node, Node))
+LangCache = TSeq(_TTup(Node, TOpt(STR)))
 SeqInt = TSeq(INT)
 SeqSelAttr = TSeq(SelAttr)
 SeqSelLang = TSeq(SelLang)
@@ -206,11 +207,6 @@ def all_nth(m: M, ns: NsMap, ifr: bool, el: Node, nth: SeqSelNth, i: int) -> boo
 
 def sem_nth(m: M, ns: NsMap, ifr: bool, el: Node, nth: SeqSelNth) -> bool:
     return all_nth(m, ns, ifr, el, nth, 0)
-
-
-@abstract
-def sem_lang(m: M, el: Node, langs: SeqSelLang) -> bool:
-    return _ref.sem_lang(m, el, langs)
 
 
 @abstract
@@ -892,20 +888,139 @@ def default_cache_ok(m: M, cache: FormCache, i: int) -> bool:
 
 
 @abstract
-def lang_cache_rest(m: M, cache: SeqInt) -> bool:
-    return True
-
-
-@abstract
 def indet_cache_rest(m: M, cache: SeqInt) -> bool:
     return True
 
 
-def lang_cache_ok(m: M, cache: SeqInt) -> bool:
-    """Representation invariant of cached_meta_lang: trivially true of the empty table; for a non-empty one it is the (not yet
-    discharged) invariant maintained by match_lang."""
-    return len(cache) == 0 or lang_cache_rest(m, cache)
-
-
 def indet_cache_ok(m: M, cache: SeqInt) -> bool:
     return len(cache) == 0 or indet_cache_rest(m, cache)
+
+
+# ---------------------------------------------------------------------------------------------- :lang() (C13)
+
+@named
+def is_lang_key(m: M, el: Node, k: str) -> bool:
+    """Attribute key k carries el's language: `lang` (ASCII case-insensitively unless the document is XML) where the document has no
+    namespace support or el is in the XHTML namespace; the attribute `lang` of the XML namespace (xml:lang) everywhere else."""
+    if not supports_ns(m) or (el is not None and namespace(el) == NS_XHTML):
+        return (k if m.is_xml else ascii_lower(k)) == 'lang'
+    loc = attr_local(el, k)
+    return attr_ns(el, k) == NS_XML and loc is not None and (loc if m.is_xml else ascii_lower(loc)) == 'lang'
+
+
+def own_lang(m: M, el: Node, seq: SeqAttr, i: int) -> OptStr:
+    """Value of el's first language attribute from position i on (attribute order)."""
+    if i < 0 or i >= len(seq):
+        return None
+    if is_lang_key(m, el, seq[i][0]):
+        return as_str(seq[i][1])
+    return own_lang(m, el, seq, i + 1)
+
+
+def inh_lang(m: M, n: Node) -> OptStr:
+    """The nearest language attribute on n or an ancestor within the same document (an iframe element is not a parent in HTML)."""
+    if n is None:
+        return None
+    v = own_lang(m, n, npairs(n), 0)
+    if v is not None:
+        return v
+    return inh_lang(m, parent_of(m, n, m.is_html))
+
+
+def doc_top(m: M, n: Node) -> Node:
+    """The topmost node of n's document."""
+    if n is None:
+        return None
+    if parent_of(m, n, m.is_html) is None:
+        return n
+    return doc_top(m, parent_of(m, n, m.is_html))
+
+
+def meta_applies(m: M, top: Node) -> bool:
+    """The <meta> pragma is consulted in HTML documents, and in XML ones only for a detached XHTML html element."""
+    return not m.is_xml or (top is not None and namespace(top) == NS_XHTML and name(top) == 'html')
+
+
+def first_named(m: M, seq: SeqNode, i: int, tag: str) -> Node:
+    """The first HTML element called `tag` among seq[i:]."""
+    if i < 0 or i >= len(seq):
+        return None
+    if tag_name(m, seq[i]) == tag and is_html_el(m, seq[i]):
+        return seq[i]
+    return first_named(m, seq, i + 1, tag)
+
+
+def meta_scan(seq: SeqAttr, i: int, c_lang: bool, content: OptStr) -> OptStr:
+    """One <meta>: its non-empty content when it also declares http-equiv=content-language (attributes read in order)."""
+    if i < 0 or i >= len(seq):
+        return None
+    cl = c_lang or (ascii_lower(seq[i][0]) == 'http-equiv' and ascii_lower(as_str(seq[i][1])) == 'content-language')
+    co = as_str(seq[i][1]) if ascii_lower(seq[i][0]) == 'content' else content
+    if cl and co is not None and co != '':
+        return co
+    return meta_scan(seq, i + 1, cl, co)
+
+
+def metas_from(m: M, head: Node, seq: SeqNode, i: int) -> OptStr:
+    """The first content-language pragma among the meta children seq[i:] of head."""
+    if i < 0 or i >= len(seq):
+        return None
+    if is_tag(seq[i]) and tag_name(m, seq[i]) == 'meta' and is_html_el(m, head):
+        v = meta_scan(npairs(seq[i]), 0, False, None)
+        if v is not None:
+            return v
+    return metas_from(m, head, seq, i + 1)
+
+
+def html_of(m: M, top: Node) -> Node:
+    return first_named(m, tag_children(m, top, m.is_html), 0, 'html')
+
+
+def head_of(m: M, top: Node) -> Node:
+    return first_named(m, tag_children(m, html_of(m, top), m.is_html), 0, 'head')
+
+
+@named
+def meta_lang(m: M, top: Node) -> OptStr:
+    """Content-Language pragma of the document whose topmost node is top: html > head > meta[http-equiv=content-language][content]."""
+    if html_of(m, top) is None or head_of(m, top) is None:
+        return None
+    return metas_from(m, head_of(m, top), contents(head_of(m, top)), 0)
+
+
+@named
+def elem_lang(m: M, el: Node) -> OptStr:
+    """C13: the nearest lang attribute, otherwise the content-language pragma, otherwise unknown (None)."""
+    v = inh_lang(m, el)
+    if v is not None:
+        return v
+    if not meta_applies(m, doc_top(m, el)):
+        return None
+    return meta_lang(m, doc_top(m, el))
+
+
+def any_range(ranges: SeqStr, tag: str, i: int) -> bool:
+    if i < 0 or i >= len(ranges):
+        return False
+    return lang_filter(ranges[i], tag) or any_range(ranges, tag, i + 1)
+
+
+def all_langs(langs: SeqSelLang, tag: str, i: int) -> bool:
+    """Every :lang() of the compound from position i on has a range matching tag."""
+    if i < 0 or i >= len(langs):
+        return True
+    return any_range(langs[i].languages, tag, 0) and all_langs(langs, tag, i + 1)
+
+
+def sem_lang(m: M, el: Node, langs: SeqSelLang) -> bool:
+    v = elem_lang(m, el)
+    return v is not None and len(langs) > 0 and all_langs(langs, v, 0)
+
+
+def lang_cache_ok(m: M, cache: LangCache, i: int) -> bool:
+    """Every memoised (top node, language) pair from position i on is right: the pragma applies to that document and the stored
+    value is what its <meta> elements say."""
+    if i < 0 or i >= len(cache):
+        return True
+    return (cache[i][0] is not None and meta_applies(m, cache[i][0]) and cache[i][1] == meta_lang(m, cache[i][0]) and
+            lang_cache_ok(m, cache, i + 1))
